@@ -11,6 +11,39 @@ C = {
  'C08': (MC, 'viable-prefix search: Earley recogniser over the documented grammar drives exhaustive token-sequence exploration of the real front end',
    'From every prefix that the amended grammar says is viable, every symbol of the token alphabet is appended (three alphabets, length bounds); every viable prefix and every dead one-token extension is rendered on one line and one token per line and run through the real lexer+parser: accepted iff derivable, rejected texts flag an error with line numbers inside the text and the first diagnostic on the line of the first dead token; rejected texts appended to a print statement run nothing and exit 65 (through main). Character-level texts, deep nesting to 10^3/10^4, the 255-parameter limit and the reserved-name set are enumerated as separate families.',
    'Earley recogniser and grammar amendments (internal/model/grammar.go); texts with a trailing comma in an object literal or a ধরি declaration spanning a line break are out of domain and skipped (counted)'),
+ 'C06': (MC, 'exhaustive fault-kind x syntactic-position x enclosure-path product against the model, differential first diagnostic',
+   'Every fault kind (24) is planted at every syntactic position (37) under every enclosure path up to a depth bound over block/if/while/for/function; each program prints before the fault and after it at every level, its loops would continue, and an input call with available stdin follows. Compared on the real interpreter (through its main package): stdout against the model, first diagnostic against the diagnostic the same fault produces alone at top level, its line, zero reads of stdin, termination by fuel, status 70; the fault-free twin must be clean.',
+   'reference model; fuel-based divergence detection (instrumented loop bodies / function entries)'),
+ 'C07': (EX, 'complete form x value x index-magnitude matrices under crash isolation',
+   'Every indexing/property/call/store/print/concatenation/built-in form on every value of the operand alphabet with every index magnitude, every binary and prefix operator on every (ordered pair of) value(s), self-containing arrays/objects under ten uses, recursion / nesting / size families to 10^4, and the same forms as REPL lines are run in-process; a recovered panic, fuel exhaustion, a dead worker process (the driver records the case in flight) or a status other than 0/70 is a violation. Panics met by any other check are reported by that check too.',
+   'crash isolation by worker sub-processes with an in-flight record; unbounded recursion is outside the domain'),
+ 'C11': (MC, 'breadth-first search over array-operation histories with states merged on model heap + implementation slice fingerprint',
+   'Histories of array operations (literals, aliasing, indexed write, এড with 1/2 extras, রিমুভ at first/second/last, parameter aliasing, arrays stored in arrays, লেন as a number, all bad-index leaves) on three variables with shared ancestry are explored breadth-first to a depth bound; after every step every variable and its length is compared with a pure list model. States are merged on the canonical model heap joined with the backing-array class / cap / len of every live Go slice (read from the values Interpret returns), so that hidden sharing of spare capacity is part of the state.',
+   'reference model; merging argument in DESIGN.md §2.4; array length capped at 5; self-containing arrays excluded (C07)'),
+ 'C12': (MC, 'breadth-first search over object-operation histories x iteration-order schedules',
+   'Histories of object operations (literals with 0-6 keys, aliasing, write, read, delete, nesting, parameter aliasing, `.` and the object built-ins on every non-object kind) on two variables with shared ancestry are explored breadth-first; after each history both objects are printed and their key/value listings are compared pairwise with a pure map model (order free, pairing and completeness required) under every iteration-order schedule within a deviation bound.',
+   'reference model; overlay-instrumented map ranges'),
+ 'C13': (MC, 'stateless schedule exploration: every iteration-order schedule x clock instants must give one outcome',
+   'Programs that reach instrumented map-iteration points (literals with probes in every source order, listings of objects built by writes/deletes in every order, diagnostics quoting a literal, the C12 histories, the shipped examples) are run under every schedule (unbounded for <=3 choice points, else <=2 deviations) and two clock instants; stdout, status and first diagnostic must be identical. Supplementary: repeated fresh uninstrumented processes. The instrumenter inventories constructs it cannot own (goroutines, select, rand, %p, unsafe ...): none today.',
+   'every source of nondeterminism is either owned by the overlay or listed in the evidence; memory layout / pid are covered only by the absence of constructs that could observe them'),
+ 'C15': (EX, 'exhaustive value families checked clause by clause',
+   'Numbers (all binades x 6 mantissa patterns, powers of ten with neighbours, the 1e6 switch, 2^53 neighbourhood, d/10 d/3 d/7, integer-typed bitwise results, +-0) and strings (every string of length <=2 over the Bangla block, Latin/Bangla bases with one or two combining marks, embedded newlines) are printed alone, through a variable, inside an array, as literal-built and assigned property, and through "" + v: one trailing newline; numerals read back exactly (math/big), use no more digits than the shortest round-trip, integers below 1e6 are plain; strings come out NFC and canonically equivalent; + splices exactly what দেখাও prints.',
+   'strconv shortest formatting as the yardstick for digit count; x/text NFC tables'),
+ 'C16': (EX, 'complete context x producer product, purely differential',
+   'Every one-hole context (each operand position of each operator against six partner kinds, logical and prefix operators, conditions, index, stores, delete key, each argument of each built-in, printing alone / in an array / as a property, concatenation, callee) is filled with every producer of the same string ("abc", "", "12", " ") or number (0, 3, 10^6); all producers must give the literal\'s stdout, first diagnostic and status; every ordered pair of producers must be ==.',
+   'no model: outcomes are compared with each other only'),
+ 'C17': (EX, 'complete built-in x arity x kind matrix and numeric boundary families against the model',
+   'Every built-in with 0-4 arguments over kind combinations (all 8^n for n<=2, one wrong position at a time above), every math built-in on boundary values (pairs for ঘাত, which must equal **), min/max over all permutations of small lists in both call forms, and ক্লক at controlled instants (and bracketed through the executable) are compared with the model: exact for abs/sqrt/round (including the sign of zero), within 4 ulp for sin/cos/tan/pow, runtime error for every misuse.',
+   'Go math package as the platform math library; numeric-looking strings are unspecified and skipped'),
+ 'C18': (EX, 'every site x every transformation over enumerated corpora, differential',
+   'For the shipped examples and enumerated corpora (control-flow skeletons, probe contexts, fault x position programs, scope histories) each transformation family - layout inserts in every inter-token gap, digit scripts of every literal, logical-operator spellings, four renaming schemes, redundant parentheses around every sub-expression, dead code at every statement boundary - is applied at all sites at once (whole corpus) and at every single site (sub-corpus); stdout, status and first diagnostic (modulo line numbers and renamed names) must not change.',
+   'model lexer / ladder parser to locate sites; known finding: the missing-property diagnostic quotes the object expression'),
+ 'C19': (MC, 'environment-answer search: command lines, outcome classes and every stdin read-chunking schedule through the real main package',
+   'The rewritten copy of the main package is run in-process with explorer-chosen argv, virtual files and stdin: 15 name shapes x 0-2 extra arguments; programs of every outcome class with the fault at start/middle/end under five wrappers (status <-> stream classification); programs with 0-3 input calls x every stdin of 0-4 lines over a 4-line pool x trailing newline, under every schedule of read sizes (to next newline / all available / one byte) within 2 deviations from both default deliveries. A command-line and stdin-as-pipe/file matrix is repeated through the real executable.',
+   'overlay rewrites os.Args/os.Exit/os.ReadFile/os.Stdin; input beyond the last complete line is unspecified and skipped'),
+ 'C20': (MC, 'exhaustive session histories through the real read-eval loop, per-line differential + model echo',
+   'Every session of up to L lines over a 22-line pool (prints, bare expressions, declarations, blocks, functions, lexical/syntax/runtime errors, stray break, empty line, comment) is run through the rewritten main package: response i must equal the response the line gets alone in a fresh session, stderr the concatenation of per-line stderr, status 0 after a final prompt; valid lines are also compared with the model (echo of bare expression values). A sample of sessions is repeated through the real executable.',
+   'reference model for echo; sessions are bounded in length'),
  'C02': (EX, 'complete operator x operand-pair matrix against the reference evaluator',
    'Every unary/binary operator is applied to every ordered pair of a 49-value operand alphabet (all runtime kinds, IEEE boundary magnitudes, integer-typed results), equality laws are checked on every pair of bound values, and every depth-2 composition over a sub-alphabet is run; each program is executed on the real interpreter (through its own main package) and judged by an independent evaluator. Exhaustive over the stated finite alphabets; values outside them (random doubles) are not covered.',
    'reference evaluator (internal/model) using Go float64 arithmetic, math.Mod and math.Pow; overlay instrumentation; string+boolean and numeric-looking strings are unspecified and skipped'),
@@ -50,6 +83,6 @@ for p in props:
           "evidence_file": "/verif/evidence/%s.json" % i, "replay_cmd_template": "./check replay {path}", "engine": "mc",
           "level_claimed": {"category": lvl, "text": text, "design_ref": "DESIGN.md §4 " + i}, "level_note": note, "technique": tech})
     else:
-        man['not_applicable'].append({"property_id": i, "reason": "check not built yet (work in progress; DESIGN.md §4 describes the planned model-checking check)"})
+        man['not_applicable'].append({"property_id": i, "reason": "check not built yet"})
 json.dump(man, open(os.path.join(ROOT, 'MANIFEST.json'), 'w'), indent=1, ensure_ascii=False)
 print('checks:', len(man['checks']), 'not claimed:', len(man['not_applicable']))
